@@ -131,6 +131,8 @@ const CHILDREN = {
   str:   { src: '{"s"}', m: () => ['s'] },
   num:   { src: '{1}', m: () => [1] },
   nul:   { src: '{null}', m: () => [null] },
+  spreadEls: { src: '{...[<b/>, x]}', m: (e) => [{ __expectVNode: { type: 'tag:b', props: null, children: null } }, e.bound.x] },
+  spreadMap: { src: '{...xs.map((q) => <b>{q}</b>)}', m: (e) => e.bound.xs.map((q) => ({ __expectVNode: { type: 'tag:b', props: null, children: [q] } })) },
   cond:  { src: '{c && <i/>}', m: () => [{ __expectVNode: { type: 'tag:i', props: null, children: null } }] },
 };
 for (const k of Object.keys(CHILDREN)) CHILDREN[k].k = k;
